@@ -192,6 +192,12 @@ func runFault(w *vt.W, id, cs, np int, conc bool, site string, k int, ac bool) {
 			clearInjected = os.Remove(fs[k%len(fs)].Name()) == nil
 		}
 	}
+	if conc && !finalised {
+		// CleanUp is not issued while background writers may still be running (DESIGN.md, scoping): a Push
+		// that reported the failure leaves the other writer going, and a file it creates during RemoveAll keeps
+		// the directory alive. Finalise waits for the writers first; its result is not judged here.
+		guard(m.Finalise)
+	}
 	if site == "clearremove" || k%2 == 0 {
 		clearErr, _ = guard(m.Clear)
 	}
